@@ -157,11 +157,10 @@ void run(const Case& c) {
     bool steal       = f[R_STEAL] != 0;
     unsigned chunk   = (unsigned)f[R_CHUNK];
     cur_kind         = KINDS[kind];
-    // experimental busy-wait mode toggles between regions
-    if ((c[F_FAST] >> r) & 1)
-      tp.burnPower((unsigned)f[R_THREADS]);
-    else
-      tp.beKind();
+    // experimental busy-wait mode toggles between regions (precondition read
+    // from runInternal's assertion: while busy-waiting, every region uses the
+    // thread count given to burnPower -- so the bag is filled in sleep mode)
+    tp.beKind();
     galois::InsertBag<int> bag;
     if (kind == 5) { // fill the bag in a region with `fillt` threads
       unsigned ft = galois::setActiveThreads((unsigned)c[F_FILLT]);
@@ -173,6 +172,8 @@ void run(const Case& c) {
       (void)ft;
     }
     unsigned t = galois::setActiveThreads((unsigned)f[R_THREADS]);
+    if ((c[F_FAST] >> r) & 1)
+      tp.burnPower(t);
     if (kind == 7 || kind == 8)
       n = t;
     {
